@@ -1044,3 +1044,69 @@ mut('C12', 'grid_filter', "    return FilterAST(hs_filter.parseString(filter, pa
 mut('C13', 'grid_filter', "    return _FnWrapper(fun_name, function_template)",
     "    w = _SEEN.get(repr(def_filter))\n    if w is None:\n        w = _SEEN[repr(def_filter)] = _FnWrapper(fun_name, function_template)\n    return w",
     rule='C13.D3', name='compiled filters shared through a store keyed by a rendering')
+
+# ---- round 7 ------------------------------------------------------------------------------------------
+mut('C01', 'zincparser', "hs_digits = Regex(r'[0-9_]+')", "hs_digits = Regex(r'[\\d_]+')", rule='C01.D2',
+    name='number token accepts non-ASCII digits (unit start absorbed)')
+mut('C03', 'zincparser', "hs_digits = Regex(r'[0-9_]+')", "hs_digits = Regex(r'[\\d_]+')", rule='C03.D1',
+    name='number token accepts non-ASCII digits (unit start absorbed)')
+_PDEC = "    if isinstance(grid_str, six.binary_type):\n        grid_str = grid_str.decode(encoding=charset)\n    _parse = functools.partial"
+mut('C01', 'parser', "MODE_JSON = 'application/json'\n", "MODE_JSON = 'application/json'\n\n\ndef _decode(data, charset):\n    if isinstance(data, six.binary_type):\n        data = data.decode(encoding=charset)\n    if isinstance(data, six.string_types):\n        import unicodedata\n        data = unicodedata.normalize('NFC', data)\n    return data\n", 'OK',
+    name='(unused) normalising helper defined but not called')
+_JMETA = "    metadata = {}\n    for name, value in meta.items():\n        metadata[name] = parse_embedded_scalar(value, version=version)"
+mut('C02', 'jsonparser', _JMETA, "    metadata = {name: parse_embedded_scalar(meta[name], version=version) for name in meta.keys() - set(())}",
+    rule='C02.D6', name='grid metadata built by walking a set of keys')
+mut('C02', 'jsonparser', _JMETA, "    metadata = {name: parse_embedded_scalar(value, version=version) for name, value in meta.items()}", 'OK',
+    name='grid metadata built by a dict comprehension over items()')
+mut('C04', 'zincdumper', "    uri_value = URI_META.sub(uri_sub, uri_value)\n", "    uri_value = URI_META.sub(uri_sub, uri_value)\n    for orig, esc in STR_SUB:\n        uri_value = uri_value.replace(orig, esc)\n",
+    rule='C04.D1', name='URIs get the string-only short escapes')
+_ZQ = "        return '%s%s' % (dump_decimal(quantity.value),\n                         quantity.unit)"
+mut('C04', 'zincdumper', "    if (quantity.unit is None) or (quantity.unit == ''):\n        return dump_decimal(quantity.value, version=version)\n    else:\n" + _ZQ,
+    "    unit = quantity.unit\n    if (unit is None) or (unit == ''):\n        unit = ''\n    return '%s%s' % (quantity.value, unit)",
+    rule='C04.D1', name='unit-less quantity bypasses dump_decimal (inf/nan spelled as str())')
+mut('C06', 'dumper', "    # Sanitise mode\n    mode = _parse_mode(mode)\n\n    if isinstance(grids, Grid):", "    if isinstance(grids, Grid):", rule='C06.D1',
+    name="dump() frames on the raw mode argument ('json')")
+mut('C06', 'dumper', "    # Sanitise mode\n    mode = _parse_mode(mode)\n\n    if isinstance(grids, Grid):", "    mode = _parse_mode(mode)\n    if isinstance(grids, Grid):", 'OK',
+    name='mode sanitised without the comment')
+_JDT = "    tz_name = timezone_name(date_time, version=version)\n    return 't:%s %s'"
+for _p in ('C07', 'C17', 'C02'):
+    mut(_p, 'jsondumper', _JDT, "    if date_time.utcoffset() == datetime.timedelta(0):\n        tz_name = 'UTC'\n    else:\n        tz_name = timezone_name(date_time, version=version)\n    return 't:%s %s'",
+        name="JSON writer labels every zero-offset stamp 'UTC'")
+mut('C07', 'zincdumper', "def dump_str(str_value, version=LATEST_VER):", "from functools import lru_cache\n\n\n@lru_cache(maxsize=4096)\ndef dump_str(str_value, version=LATEST_VER):",
+    rule='C07.D2', name='dump_str memoised (Bin is unhashable)')
+mut('C08', 'zincdumper', "    str_value = STR_META.sub(str_sub, str_value)", "    str_value = STR_META.sub(str_sub, str_value, re.UNICODE)", rule='C08.D1',
+    name='flag passed where sub() takes the replacement count')
+mut('C08', 'zincdumper', "    str_value = STR_META.sub(str_sub, str_value)", "    str_value = STR_META.sub(str_sub, str_value, count=0)", 'OK',
+    name='count=0 spelled out')
+_JREFW = "    if ref.has_value:\n        return u'r:%s %s' % (ref.name, ref.value)\n    else:\n        return u'r:%s' % ref.name"
+mut('C08', 'jsondumper', _JREFW, "    ref_str = u'r:%s'\n    if ref.has_value:\n        ref_str += u' ' + ref.value\n    return ref_str % ref.name", rule='C08.D2',
+    name='display name concatenated into the format string')
+mut('C09', 'zincparser', 'hs_strChar = Regex(r"([^\\x00-\\x1f\\\\\\\"]|\\\\[bfnrt\\\\\\\"$]|\\\\[uU][0-9a-fA-F]{4})")',
+    'hs_strChar = Regex(r"([^\\x00-\\x1f\\\\\\\"]|\\\\[bfnrt\\\\\\\"$]|\\\\u[0-9a-f]{4})", re.IGNORECASE)', rule='C09.D4',
+    name='IGNORECASE over the whole escape regex (\\B \\T accepted)')
+mut('C10', 'jsonparser', "    if scalar is None:\n        return None\n", "    if not scalar:\n        return scalar\n", rule='C10.D1',
+    name='falsy fast path returns [] / {} before the version gate')
+mut('C11', 'grid_filter', '    function_template = "def %s(_grid, _entity):\n  return " % fun_name + "".join(def_filter)'.replace('\n', '\\n'),
+    '    function_template = ("def %s(_grid, _entity):\n  return " + "".join(def_filter)) % fun_name'.replace('\n', '\\n'), rule='C11.D5',
+    name='generated source used as a %-format template')
+mut('C12', 'grid_filter', "hs_id = Regex(r'[a-z][a-zA-Z0-9_]*')", "hs_id = pyparsing_common.identifier", rule='C12.D1',
+    name='tag names by pyparsing_common.identifier')
+mut('C14', 'grid', "        if not isinstance(value, dict):\n            raise TypeError('value must be a dict')\n        for val in value.values():\n            self._detect_or_validate(val)\n        self._row[index] = value",
+    "        if isinstance(index, numbers.Number) and not -len(self._row) < index < len(self._row):\n            raise IndexError('row index out of range')\n        if not isinstance(value, dict):\n            raise TypeError('value must be a dict')\n        for val in value.values():\n            self._detect_or_validate(val)\n        self._row[index] = value",
+    rule='C14.D1', name='explicit index test excludes -len')
+mut('C14', 'grid', "        if not isinstance(value, dict):\n            raise TypeError('value must be a dict')\n        for val in value.values():\n            self._detect_or_validate(val)\n        self._row[index] = value",
+    "        if isinstance(index, numbers.Number) and not -len(self._row) <= index < len(self._row):\n            raise IndexError('row index out of range')\n        if not isinstance(value, dict):\n            raise TypeError('value must be a dict')\n        for val in value.values():\n            self._detect_or_validate(val)\n        self._row[index] = value",
+    'OK', name='explicit index test equal to the list rule')
+mut('C17', 'zincparser', "    elif bool(tzname):\n        try:", "    elif bool(tzname) and isodt.utcoffset():\n        try:", rule='C17.D2',
+    name='zone conversion skipped when the offset is zero (falsy timedelta)')
+mut('C18', 'version', "        return hash((nums, self.version_extra))", "        return hash(('.'.join(str(p) for p in nums).rstrip('.0'), self.version_extra))", rule='C18.D2',
+    name="rstrip('.0') on the version text")
+_FLB = "        elif isinstance(v1, bool) or isinstance(v2, bool):\n            # a boolean is not a number\n            return isinstance(v1, bool) and isinstance(v2, bool) and v1 == v2\n"
+mut('C19', 'grid', _FLB + "        elif isinstance(v1, float) or isinstance(v2, float):", "        elif isinstance(v1, float) or isinstance(v2, float):", 'V',
+    name='boolean branch removed')
+mut('C20', 'datatypes', "        return pow(self.value, other, modulo)", "        return self.value.__pow__(other, modulo)", rule='C20.D1',
+    name='dunder of the value called directly')
+mut('C20', 'datatypes', "        if isinstance(other, Qty):\n            if other.unit != self.unit:", "        if type(other) in (int, float):\n            return op(self.value, other)\n        if isinstance(other, Qty):\n            if other.unit != self.unit:",
+    rule='C20.D1', name='plain numbers selected by exact type (bool excluded)')
+mut('C12', 'datatypes', "        self.encoding = encoding\n", "        try:\n            import codecs\n            encoding = {'hex': 'hex', 'base64': 'b64'}.get(codecs.lookup(encoding).name, encoding)\n        except LookupError:\n            pass\n        self.encoding = encoding\n",
+    name='codec looked up by the literal type name (imports encodings.*)')
